@@ -445,3 +445,95 @@ func VerifHarness_C01_O2b() {
 // famous witnesses (same obligation as C18/O2: a timestamp computed from all
 // known witnesses would differ between partial views).
 func VerifHarness_C01_O7() { VerifHarness_C18_O2() }
+
+// O4: round-received.  Event x of round 0 is undetermined; rounds 1..R (R = 2,
+// thorough 3) each hold one witness per validator with SYMBOLIC fame (undecided
+// / famous / not famous) and a symbolic "sees x" coordinate.  x is received in
+// round i iff i is the least round such that all rounds 1..i are decided, every
+// famous witness of i sees x and the famous witnesses of i are a supermajority;
+// x leaves the undetermined queue iff received and is recorded in exactly that
+// round.
+func VerifHarness_C01_O4() {
+	R := 2
+	if verifTier() > 0 {
+		R = 3
+	}
+	n := 3 + verifChoice("n", 2)
+	vn := verifNewNet(n, 100)
+	h := vn.h
+	verifAbstractEvent(vn, "x", 0, 5)
+	h.roundCache.Add("x", 0)
+	h.UndeterminedEvents = []string{"x"}
+	r0 := NewRoundInfo()
+	r0.AddCreatedEvent("x", false)
+	h.Store.SetRound(0, r0)
+	fame := make([][]int, R+1)
+	sees := make([][]bool, R+1)
+	for r := 1; r <= R; r++ {
+		ri := NewRoundInfo()
+		fame[r] = make([]int, n)
+		sees[r] = make([]bool, n)
+		for j := 0; j < n; j++ {
+			name := fmt.Sprintf("w%d_%d", r, j)
+			w := verifAbstractEvent(vn, name, j, 10*r)
+			f := verifNondetInt(fmt.Sprintf("fame%d_%d", r, j))
+			verifAssume(f >= 0 && f <= 2)
+			fame[r][j] = f
+			coord := verifNondetInt(fmt.Sprintf("see%d_%d", r, j))
+			w.lastAncestors[vn.hexes[0]] = EventCoordinates{Hash: "a", Index: coord}
+			sees[r][j] = coord >= 5
+			ri.CreatedEvents[name] = roundEvent{Witness: true, Famous: common.Trilean(f)}
+		}
+		h.Store.SetRound(r, ri)
+	}
+	err := h.DecideRoundReceived()
+	verifAssert("no-error", err == nil)
+	// reference
+	want := -1
+	stopped := false
+	for i := 1; i <= R; i++ {
+		dec, undec, fam, famSee := 0, 0, 0, 0
+		for j := 0; j < n; j++ {
+			if fame[i][j] == 0 {
+				undec++
+			} else {
+				dec++
+			}
+			if fame[i][j] == 1 {
+				fam++
+				if sees[i][j] {
+					famSee++
+				}
+			}
+		}
+		decided := undec == 0 && 3*dec > 2*n
+		if !stopped && want < 0 {
+			if !decided {
+				stopped = true
+			} else if famSee == fam && 3*fam > 2*n {
+				want = i
+			}
+		}
+	}
+	ex, _ := h.Store.GetEvent("x")
+	if want < 0 {
+		verifAssert("not-received-stays-undetermined", ex.roundReceived == nil && len(h.UndeterminedEvents) == 1 && h.UndeterminedEvents[0] == "x")
+	} else {
+		verifAssert("received-in-the-first-qualifying-round", ex.roundReceived != nil && *ex.roundReceived == want)
+		verifAssert("received-event-leaves-the-queue", len(h.UndeterminedEvents) == 0)
+	}
+	total := 0
+	for r := 1; r <= R; r++ {
+		ri, _ := h.Store.GetRound(r)
+		total += len(ri.ReceivedEvents)
+		if r == want {
+			verifAssert("recorded-in-its-round", len(ri.ReceivedEvents) == 1 && ri.ReceivedEvents[0] == "x")
+		}
+	}
+	if want < 0 {
+		verifAssert("not-recorded-anywhere", total == 0)
+	} else {
+		verifAssert("recorded-exactly-once", total == 1)
+	}
+	verifReach("end")
+}
